@@ -240,13 +240,13 @@ Proof.
     (* the identifiables map *)
     eapply mj_bind.
     { destruct ident.
-      - unfold fix_identifiables. apply mj_modify_model; auto. intros y. apply (ENV mok_fix_identifiables).
+      - unfold fix_identifiables. apply mj_modify_model; auto; intros y; apply (ENV mok_fix_identifiables).
       - generalize (map fst original). intros paths. revert w3 C3 X3 S3 N3 Lm3.
         induction paths as [|op r IH]; intros w3 C3 X3 S3 N3 Lm3.
         + apply mj_ret; assumption.
         + eapply mj_bind.
           * destruct (strip_prefix src_prefix op); [|apply mj_ret; assumption].
-            unfold fix_identifiables. apply mj_modify_model; auto. intros y. apply (ENV mok_fix_identifiables).
+            unfold fix_identifiables. apply mj_modify_model; auto; intros y; apply (ENV mok_fix_identifiables).
           * intros [] w4 C4 X4 S4 N4. apply (IH w4 C4); auto.
             -- eapply ext_trans; eauto.
             -- lia.
@@ -264,12 +264,12 @@ Proof.
           eapply mj_rd; [exact C4|exact S4|exists (OK x); split; [exact EGX|]; intros a [= <-]; exact (eq_refl x)|]. intros ? <-.
           destruct (assoc_get orig_ref (m_origins x)) as [refs|] eqn:EA; [|apply mj_ret; assumption].
           assert (FR : Forall (fun e => e < w_next w4) refs).
-          { apply model_ok_iff in MOX as (_ & _ & D). eapply assoc_get_ok; eauto. }
+          { apply model_ok_iff in MOX as (_ & D). eapply assoc_get_ok; eauto. }
           eapply mj_bind.
           { exists (OK tt), (wmodel w4 m (set_origins x (assoc_remove orig_ref (m_origins x)))). split; [reflexivity|].
             split; [|split; [apply ext_wmodel|split; [exact S4|reflexivity]]].
-            apply Closed_wmodel; [exact C4|]. apply model_ok_iff in MOX as (A & B & D). apply model_ok_iff. cbn.
-            split; [exact A|]. split; [exact B|apply assoc_remove_ok; exact D]. }
+            apply Closed_wmodel; [exact C4|]. apply model_ok_iff in MOX as (A & D). apply model_ok_iff. cbn.
+            split; [exact A|apply assoc_remove_ok; exact D]. }
           intros [] w5 C5 X5 S5 N5. cbv zeta.
           eapply mj_bind.
           { assert (UPD : forall rl w6, Closed w6 -> selflen self pos w6 -> Forall (fun e => e < w_next w6) rl ->
@@ -287,8 +287,8 @@ Proof.
           intros [] w6 C6 X6 S6 N6.
           apply mj_modify_model; auto.
           * eapply (ENV ext_models); [exact X6|]. eapply (ENV ext_models); [exact X5|exact Lm4].
-          * intros z MOZ. apply model_ok_iff in MOZ as (A & B & D). apply model_ok_iff. cbn.
-            split; [exact A|]. split; [exact B|].
+          * intros z MOZ. apply model_ok_iff in MOZ as (A & D). apply model_ok_iff. cbn.
+            split; [exact A|].
             assert (FR6 : Forall (fun e => e < w_next w6) refs).
             { rewrite Forall_forall in *. intros e IN. rewrite N6, N5. auto. }
             destruct (assoc_get _ (m_origins z)) as [l0|] eqn:EZ.
